@@ -117,6 +117,9 @@ class C11(Prop):
             c0.execute("create table j (id int, v variant)")
             for i, d in enumerate(DOCS, 1):
                 c0.execute("insert into j select %s, parse_json(%s)", (i, json.dumps(d)))
+            c0.execute("insert into j select 8, parse_json(%s)", (json.dumps({"p": ["x", "y"], "q": ["s"], "tags": ["  red "]}),))
+            c0.execute("insert into j select 9, parse_json(%s)", (json.dumps({"2024": "yr", "1": "yr"}),))
+            c0.execute("insert into j select 10, parse_json(%s)", (json.dumps(["e0", "e1", "e2"]),))
             # document 7: holds another JSON document as text (used by "reparse")
             c0.execute("insert into j select 7, parse_json(%s)", (json.dumps({"payload": json.dumps({"id": 7, "t": "it is"}), "other": 1}),))
         cur = _FS.connect("DB1", "S1").cursor()
@@ -188,6 +191,19 @@ class C11(Prop):
             cast = "::int" if op["key"] == "id" else "::varchar"
             v = cur.execute(f"select {op['via']}({base}:payload::varchar):{op['key']}{cast} as r{frm}").fetchall()[0][0]
             return res_of(v, expect_doc=False)
+        if fn == "flat2":
+            rows = cur.execute(f"select f1.value::{op['cast']} || '|' || f2.value::{op['cast']} from j, lateral flatten(input => v:p) f1, "
+                               "lateral flatten(input => v:q) f2 where id = 8 order by 1").fetchall()
+            return {"res": "docs", "txt": "", "doc": NODOC, "docs": [tag(r[0]) for r in rows]}
+        if fn == "flattrim":
+            rows = cur.execute(f"select {op['which']}(f.value) from j, lateral flatten(input => v:tags) f where id = 8").fetchall()
+            return {"res": "docs", "txt": "", "doc": NODOC, "docs": [tag(r[0]) for r in rows]}
+        if fn == "digitkey":
+            docs = {"object": {"2024": "yr", "1": "yr"}, "array": ["e0", "e1", "e2"]}
+            base = f"parse_json({sql_str(json.dumps(docs[op['on']]))})" if op["src"] == "lit" else "v"
+            frm = "" if op["src"] == "lit" else f" from j where id = {9 if op['on'] == 'object' else 10}"
+            v = cur.execute(f"select {base}['{op['key']}'] as r{frm}").fetchall()[0][0]
+            return res_of(v, expect_doc=True)
         if fn == "tryparse":
             v = cur.execute("select try_parse_json(%s)", (json.dumps(DOCS[2]) if op["good"] else "{bad",)).fetchall()[0][0]
             return res_of(v, expect_doc=True)
